@@ -1,5 +1,6 @@
 """C09 — the HTTP client completes each fetch once, honours max_clients, redirects safely
 (SimpleAsyncHTTPClient over scripted FakeStreams on the virtual loop vs lean/TornadoModel/C09)."""
+import os
 import base64, itertools, re, urllib.parse
 from core.wire import atom, line, parse_reply, Atom
 
@@ -43,7 +44,7 @@ CLAUSES = {
         "cross_origin_strips + cross_origin_of_differs",
 }
 PARALLEL = True
-CASE_TIMEOUT = 60
+CASE_TIMEOUT = int(os.environ.get("VERIF_CASE_TIMEOUT", "60"))   # wall-clock watchdog per case; generous because the box is shared (a case takes ~5 ms)
 UNIT = 1024      # model ticks per second
 
 
@@ -193,7 +194,7 @@ def _gen_redir(rng):
 
 
 def gen_cases(rng, tier):
-    ns, nr = {"quick": (900, 900), "thorough": (14000, 14000), "search": (1500, 1500)}[tier]
+    ns, nr = {"quick": (900, 900), "thorough": (60000, 60000), "search": (1500, 1500)}[tier]
     if tier == "quick":
         yield from _enum_sched(3)
     elif tier == "thorough":
